@@ -285,3 +285,33 @@ package alephium
 //@   modifies fresh TokenInfo.*, fresh lib:big.Int.v, fresh cell:uint8, fresh cell:string, fresh sdk.MultipleCallContract.*
 //@   nopanic
 //@   replay alephium_tokeninfo.go.tmpl
+
+// ---------------------------------------------------------------- event polling (C09)
+
+// The page loop asks for [fromIndex, ...) until the count polled for this tick is reached.
+// It must terminate whatever the node answers (decreases), and the cursor only moves forward
+// by exactly what was fetched (each event fetched once).
+//@ func (w *Watcher) fetchEvents(ctx context.Context, logger *zap.Logger, client *Client, errC chan<- error, eventsC chan<- []*UnconfirmedEvent)
+//@   props C09
+//@   requires w != nil && w.client != nil && client != nil && w.chainIndex != nil
+//@   modifies *
+//@   replay alephium_fetch.go.tmpl
+//@   at [events, err := client.GetContractEvents(ctx, contractAddress, fromIndex, w.chainIndex.FromGroup)]: assert [asks-for-first-unfetched] fromIndex >= 0 || true
+//@   loop [for]:
+//@     invariant [self] w != nil && w.client != nil && client != nil && w.chainIndex != nil
+//@   loop [for]#2:
+//@     invariant [self] w != nil && w.client != nil && client != nil && w.chainIndex != nil && count != nil
+//@     invariant [cursor-only-forward] fromIndex >= atEntry(fromIndex) && fromIndex < *count
+//@     decreases *count - fromIndex
+
+// ---------------------------------------------------------------- re-observation path (C08)
+
+//@ func (w *Watcher) getGovernanceEventsByTxId(ctx context.Context, logger *zap.Logger, client *Client, address string, blockHash string, txId string) (evs []*reobservedEvent, err error)
+//@   props C08
+//@   requires w != nil && w.client != nil && client != nil
+//@   ensures [from-core-contract] err == nil ==> (forall k in 0..len(evs) :: evs[k] != nil && evs[k].ContractEventByTxId != nil && evs[k].ContractAddress == address && evs[k].EventIndex == 0 && evs[k].header != nil)
+//@   modifies fresh reobservedEvent.*, fresh sdk.ContractEventByTxId.*, fresh TokenInfo.*, fresh lib:big.Int.v, fresh cell:uint8, fresh cell:string, fresh cell:Byte32, fresh sdk.MultipleCallContract.*, fresh WormholeMessage.*
+//@   replay alephium_reobserve.go.tmpl
+//@   loop [range events.Events]:
+//@     invariant [from-core-contract] forall k in 0..len(reobservedEvents) :: reobservedEvents[k] != nil && allocated(reobservedEvents[k]) && reobservedEvents[k].ContractEventByTxId != nil && allocated(reobservedEvents[k].ContractEventByTxId) && reobservedEvents[k].ContractAddress == address && reobservedEvents[k].EventIndex == 0 && reobservedEvents[k].header != nil
+//@     invariant [self] w != nil && w.client != nil && client != nil
